@@ -35,6 +35,8 @@ pub struct Sched {
     st: Mutex<St>,
     cv: Condvar,
     after: Mutex<Option<Arc<AfterFn>>>,
+    /// number of calls each worker has completed in the current execution (maintained by the drivers)
+    pub calls_done: Mutex<Vec<usize>>,
 }
 
 pub const BUDGET_PANIC: &str = "PLV-STEP-BUDGET";
@@ -88,7 +90,7 @@ pub trait Chooser {
 
 impl Sched {
     pub fn new() -> Arc<Self> {
-        Arc::new(Sched { st: Mutex::new(St::default()), cv: Condvar::new(), after: Mutex::new(None) })
+        Arc::new(Sched { st: Mutex::new(St::default()), cv: Condvar::new(), after: Mutex::new(None), calls_done: Mutex::new(vec![]) })
     }
 
     pub fn set_after(&self, f: Option<Arc<AfterFn>>) {
@@ -106,6 +108,7 @@ impl Sched {
     /// per worker, whether it ran over the step budget.
     pub fn run(self: &Arc<Self>, jobs: Vec<Job>, budget: usize, chooser: &mut dyn Chooser) -> (Vec<usize>, Vec<bool>) {
         let n = jobs.len();
+        *self.calls_done.lock().unwrap() = vec![0; n];
         {
             let mut g = self.st.lock().unwrap();
             *g = St {
@@ -174,6 +177,52 @@ impl Sched {
         }
         let ob = self.st.lock().unwrap().over_budget.clone();
         (schedule, ob)
+    }
+}
+
+impl Sched {
+    pub fn note_call_done(&self, w: usize) {
+        let mut g = self.calls_done.lock().unwrap();
+        if w < g.len() {
+            g[w] += 1;
+        }
+    }
+}
+
+/// Adversarial schedule: the victim advances one operation at a time; between two operations of the
+/// victim some other worker runs one complete call (round-robin over the others). This is the
+/// schedule that defeats retry loops (compare-exchange with a bounded number of attempts) and
+/// maximises the number of foreign calls inside every window of the victim.
+pub struct Starve {
+    pub sched: Arc<Sched>,
+    pub victim: usize,
+    pub other: Option<(usize, usize)>, // (worker, calls_done target)
+    pub next_other: usize,
+    pub victim_turn: bool,
+}
+impl Chooser for Starve {
+    fn choose(&mut self, runnable: &[usize], _p: &[Option<Pending>], _l: Option<usize>) -> usize {
+        let done = self.sched.calls_done.lock().unwrap().clone();
+        if let Some((w, target)) = self.other {
+            if runnable.contains(&w) && done.get(w).copied().unwrap_or(0) < target {
+                return w;
+            }
+            self.other = None;
+            self.victim_turn = true;
+        }
+        if self.victim_turn && runnable.contains(&self.victim) {
+            self.victim_turn = false;
+            return self.victim;
+        }
+        // pick the next other worker and let it complete one call
+        let others: Vec<usize> = runnable.iter().copied().filter(|&i| i != self.victim).collect();
+        if others.is_empty() {
+            return runnable[0];
+        }
+        let w = others[self.next_other % others.len()];
+        self.next_other += 1;
+        self.other = Some((w, done.get(w).copied().unwrap_or(0) + 1));
+        w
     }
 }
 
